@@ -72,6 +72,19 @@ func observeIndex(ctxb context.Context, ix *index.Index, corp *index.Corpus, ref
 					obs[fmt.Sprintf("attr %s %s %s", pn, attr, kid)] = fmt.Sprintf("%q", corp.AppendPermanodeAttrValues(nil, pn, attr, time.Time{}, kid))
 				}
 			}
+			// the claims in the order the corpus keeps them (dates are distinct in these worlds: the order is determined),
+			// and the attribute values as of every claim's date
+			var order []string
+			corp.ForeachClaim(pn, time.Time{}, func(cl *camtypes.Claim) bool {
+				order = append(order, cl.BlobRef.String()[7:15])
+				return true
+			})
+			obs["claim-order "+pn.String()] = strings.Join(order, " ")
+			for _, cl := range claims {
+				for _, attr := range []string{"title", "camliMember", "camliPath:x"} {
+					obs[fmt.Sprintf("attr %s %s as of %d", pn, attr, cl.Date.UnixNano())] = fmt.Sprintf("%q", corp.AppendPermanodeAttrValues(nil, pn, attr, cl.Date, ""))
+				}
+			}
 			t, ok := corp.PermanodeModtime(pn)
 			obs["modtime "+pn.String()] = fmt.Sprint(t.UnixNano(), ok)
 			t, ok = corp.PermanodeAnyTime(pn)
